@@ -299,6 +299,81 @@ def check_tables(res):
     res.exhaustive = True
 
 
+SCOPE_CONSTRUCTS = [('$', '$', True), ('\\(', '\\)', True), ('$$', '$$', True), ('\\[', '\\]', True),
+                    ('{', '}', None), ('\\begin{zzx}', '\\end{zzx}', None),     # None: inherits
+                    ('\\begin{zzeq}', '\\end{zzeq}', True), ('\\zzopt[', ']', None),
+                    ('\\zztext{', '}', False), ('\\zzmath{', '}', True)]
+SCOPE_HOSTS = [('%s', False), ('{%s}', False), ('\\zztext{%s}', False), ('$%s$', True),
+               ('\\begin{zzeq}%s\\end{zzeq}', True)]
+
+
+def check_scoping(res):
+    """a macro whose specification changes the parsing state for what follows it (a switch), used
+    inside a construct: what follows the *construct* has the mode -- and the other recorded
+    settings -- of the construct's parent, whatever happened inside ("everything else inherits
+    from its parent")"""
+    from pylatexenc.macrospec import LatexContextDb, MacroSpec, EnvironmentSpec
+    from pylatexenc.latexnodes import ParsingStateDelta, ParsingStateDeltaEnterMathMode
+    from pylatexenc.latexwalker import LatexWalker
+    from ..treedump import walk
+    import pylatexenc.latexnodes as LN
+    text_delta = getattr(LN, 'ParsingStateDeltaLeaveMathMode', None)
+    db = LatexContextDb()
+    macros = [
+        MacroSpec('zzsw', '', make_after_parsing_state_delta=lambda parsed_node, latex_walker:
+                  ParsingStateDelta(set_attributes=dict(enable_comments=False))),
+        MacroSpec('zzopt', '['), MacroSpec('zzmath', [LN.LatexArgumentSpec(
+            '{', parsing_state_delta=ParsingStateDeltaEnterMathMode())])]
+    if text_delta is not None:
+        macros.append(MacroSpec('zztext', [LN.LatexArgumentSpec('{', parsing_state_delta=text_delta())]))
+    db.add_context_category('c10scope', macros=macros, environments=[
+        EnvironmentSpec('zzx', ''), EnvironmentSpec('zzeq', '', is_math_mode=True)])
+    db.set_unknown_macro_spec(MacroSpec(''))
+    for (o, c, inner_math), (host, host_math) in itertools.product(SCOPE_CONSTRUCTS, SCOPE_HOSTS):
+        if text_delta is None and ('zztext' in o or 'zztext' in host):
+            continue
+        if o in ('$', '$$') and host.startswith('$'):
+            continue        # (dollar inside dollar math closes it)
+        if inner_math and host_math and o in ('\\(', '\\[', '$', '$$'):
+            continue        # a formula directly inside a formula may be rejected
+        decl = 'inherit' if inner_math is None else ('math' if inner_math else 'text')
+        if inner_math is None:
+            inner_math = host_math
+        src = host % ('pq ' + o + 'in \\zzsw sw' + c + ' zq %c\n')
+        res.case()
+        case = {'kind': 'scoping', 'src': src}
+        try:
+            w = LatexWalker(src, latex_context=db, tolerant_parsing=False)
+            nl, _, _ = w.get_latex_nodes()
+        except Exception as e:
+            res.fail(exc_key(e), exc_detail(e) + ' on %r' % src, case)
+            continue
+        seen = {}
+        for n in walk(nl):
+            if kind(n) == 'chars':
+                for word in ('pq', 'in', 'sw', 'zq'):
+                    if word in n.chars:
+                        seen[word] = (bool(n.parsing_state.in_math_mode),
+                                      bool(n.parsing_state.enable_comments))
+        ncomments = sum(1 for n in walk(nl) if kind(n) == 'comment')
+        want = {'pq': (host_math, True), 'in': (inner_math, True), 'sw': (inner_math, False),
+                'zq': (host_math, True)}
+        for word in ('pq', 'in', 'sw', 'zq'):
+            if seen.get(word) != want[word]:
+                res.fail('c10:scoping:%s:%s' % ({'pq': 'before', 'in': 'inside', 'sw': 'after-switch',
+                                                 'zq': 'after-construct'}[word],
+                                                decl + '-construct'),
+                         '%r: the text %r records (math mode, comments enabled) = %r, expected %r'
+                         % (src, word, seen.get(word), want[word]), case)
+                break
+        else:
+            if ncomments != 1:
+                res.fail('c10:scoping:comment-after-construct', '%r: %d comment nodes, the comment '
+                         'after the construct is one' % (src, ncomments), case)
+        res.nontriv(src)
+    res.label('scoping:switch-inside-construct')
+
+
 def plan(tier, seed):
     L, ndocs = (6, 3200) if tier == 'quick' else (7, 64000)
     shards = [('str', L, k) for k in range(NSHARDS)]
@@ -309,12 +384,14 @@ def plan(tier, seed):
             'required_classes': ['str:both-accept', 'str:both-reject', 'dollar-run',
                                  'non-trivial:string', 'non-trivial:nested-modes', 'doc:parsed',
                                  'table:math-environment',
-                                 'table:mode-switching-macro']}
+                                 'table:mode-switching-macro',
+                                 'scoping:switch-inside-construct']}
 
 
 def run_shard(shard, res):
     if shard[0] == 'tables':
         check_tables(res)
+        check_scoping(res)
         return
     if shard[0] == 'str':
         _, L, k = shard
@@ -328,9 +405,9 @@ def run_shard(shard, res):
 
 
 def check_case(case, res):
-    if case['kind'] == 'table':
+    if case['kind'] in ('table', 'scoping'):
         r2 = Result()
-        check_tables(r2)
+        (check_tables if case['kind'] == 'table' else check_scoping)(r2)
         for key, l in r2.failures.items():
             for f in l:
                 if f['case'].get('src') == case['src']:
@@ -344,7 +421,7 @@ def check_case(case, res):
 
 
 def minimise(case, key):
-    if case['kind'] == 'table':
+    if case['kind'] in ('table', 'scoping'):
         return case
     if case['kind'] == 'str':
         def pred(t):
